@@ -685,6 +685,19 @@ class World:
                       f"read_{fmt}({rel}) gives {here!r} in the running process but {fresh!r} after a "
                       f"restart (fresh interpreter)")
 
+    def op_rmtree(self, op):
+        """An operator removes a directory; later writes below it must recreate it."""
+        d = op["dir"]
+        path = self.path(d)
+        if not d or not os.path.isdir(path):
+            return
+        shutil.rmtree(path, ignore_errors=True)
+        for rel in [r_ for r_ in self.files if r_.startswith(d + os.sep)]:
+            del self.files[rel]
+        self.faults["rmtree"] = self.faults.get("rmtree", 0) + 1
+        self.abstract.append(("rmtree",))
+        self.log.append({"op": "rmtree", "dir": d})
+
     def op_truncate(self, op):
         rel = op["path"]
         info = self.files.get(rel)
@@ -1097,6 +1110,7 @@ class Gen:
         self.nrows_max = r.choice([1, 2, 4, 8, 12])
         self.counter = 0
         self.pending = []
+        self.reuse_dir = None
 
     def config(self):
         return {"nops": self.nops, "fault_rate": self.fault_rate, "fault_kinds": self.fault_kinds,
@@ -1173,11 +1187,12 @@ class Gen:
             d = {}
             for k in keys:
                 if fmt == "lod_csv":
-                    d[k] = r.choice(self.strings(enc) + ["1", "2.5", ""])
+                    d[k] = r.choice(self.strings(enc) + ["1", "2.5", ""]) if k != "id" else str(i * 3 + 1)
                 else:
                     if k != "id" and r.random() < 0.25:
                         continue
-                    d[k] = r.choice([None, True, 1, 2.5, "x", r.choice(self.strings(enc)), 0, ""])
+                    d[k] = r.choice([None, True, 1, 2.5, "x", r.choice(self.strings(enc)), 0, "", 1.0, False,
+                                     0.0])
             if fmt != "lod_csv":
                 d["id"] = i
             items.append(d)
@@ -1203,6 +1218,8 @@ class Gen:
     def geo_doc(self, enc="utf-8"):
         r = self.rng
         n = r.choice([0, 1, 2, 3, 8]) if r.random() < 0.9 else 1
+        if r.random() < 0.04:
+            n = r.choice([16, 32, 64, 128, 100, 256])       # batch / buffer size boundaries
         keytypes = {"name": "str", "pop": "int", "area": "float", "cap": "bool", "n m": "str"}
         keys = r.sample(list(keytypes), r.choice([0, 1, 2, 3, 5]))
         feats = []
@@ -1274,6 +1291,8 @@ class Gen:
         s = r.choice(allowed)
         self.counter += 1
         d = r.choice(["", "", "d1", "d1/d2", "new%d/deep" % self.counter])
+        if self.reuse_dir is not None and r.random() < 0.7:
+            d, self.reuse_dir = self.reuse_dir, None        # write again below a removed directory
         return os.path.join(d, "f%d%s%s" % (self.counter, ext, s))
 
     def existing(self, fmts=None, states=("acked",)):
@@ -1328,6 +1347,14 @@ class Gen:
         if p is None:
             return self.g_write()
         return {"op": "restart", "path": p}
+
+    def g_rmtree(self):
+        dirs = sorted({os.path.dirname(p) for p in self.w.files if os.path.dirname(p)})
+        if not dirs:
+            return self.g_write() if self.prop != "C18" else self.g_geo()
+        d = self.rng.choice(dirs)
+        self.reuse_dir = d
+        return {"op": "rmtree", "dir": d}
 
     def g_truncate(self):
         p = self.existing()
@@ -1391,6 +1418,11 @@ class Gen:
                 lit["keys"] = r.sample(keys, r.randint(1, min(4, len(keys))))
             if fmt == "lod_json" and r.random() < 0.4 and "id" in (lit.get("keys") or keys):
                 lit["types"] = {"id": r.choice(["float", "str"])}
+                if r.random() < 0.5 and "k" in (lit.get("keys") or keys):
+                    lit["types"]["k"] = "str"        # mixed values None/True/1/1.0/2.5/'x'
+            if fmt == "lod_csv" and r.random() < 0.5 and info["opts"].get("header") is not False \
+                    and "id" in (lit.get("keys") or keys):
+                lit["types"] = {"id": r.choice(["int", "float"])}
         elif fmt == "geojson":
             keys = list(dict.fromkeys(k for f in doc["features"] for k in f["properties"]))
             if keys and r.random() < 0.8:
@@ -1433,12 +1465,12 @@ class Gen:
         if self.pending:
             return self.pending.pop(0)
         if self.prop == "C18":
-            table = [("geo", 6), ("read", 2), ("truncate", 0.5)]
+            table = [("geo", 6), ("read", 2), ("truncate", 0.5), ("rmtree", 0.3)]
         elif self.prop == "C14":
-            table = [("write", 4), ("routes", 3), ("restrict", 4), ("truncate", 1), ("read", 1)]
+            table = [("write", 4), ("routes", 3), ("restrict", 4), ("truncate", 1), ("read", 1), ("rmtree", 0.2)]
         else:
             table = [("write", 5), ("read", 3), ("truncate", 0.7), ("routes", 0.5), ("restrict", 0.5),
-                     ("restart", 0.01 if self.tier != "thorough" else 0.08)]
+                     ("restart", 0.01 if self.tier != "thorough" else 0.08), ("rmtree", 0.3)]
         if not self.w.files:
             return self.g_geo() if self.prop == "C18" else self.g_write()
         name = r.choices([n for n, w in table], [w for n, w in table])[0]
